@@ -100,3 +100,19 @@ func VerifStruct(name string, opts Options, fields ...VField) *TypeDescriptor {
 	}
 	return VerifBuild(ty)
 }
+
+// VerifDefaultI32 makes the parsed-default record of an i32 field the way makeDefaultValue does.
+func VerifDefaultI32(v int32) *DefaultValue {
+	p := BinaryProtocol{Buf: make([]byte, 0, 4)}
+	p.WriteI32(v)
+	js := "0"
+	switch v {
+	case 7:
+		js = "7"
+	case 8:
+		js = "8"
+	case 9:
+		js = "9"
+	}
+	return &DefaultValue{goValue: int64(v), jsonValue: js, thriftBinary: string(p.Buf)}
+}
